@@ -167,3 +167,112 @@ def check_local_step(chk, rid, repo, q, charges_rid=None):
     check_label(chk, crid, repo, fi, kind, outA, label, it.ret_node, crid)
     n += 3
     return n
+
+
+# ----------------------------------------------------------------------
+# sweep loop bodies in the leg domain (in-line factorisations, splits, local orthonormalisations)
+def body_env(psi, i):
+    from ..affine import Affine, try_affine
+    import ast as _ast
+    env = {}
+    for off in (-1, 0, 1, 2):
+        k = str(Affine.sym(i) + Affine.const(off))
+        kl = k
+        kr = str(Affine.sym(i) + Affine.const(off + 1))
+        env[f'@{psi}.A[{k}]'] = mps_site(f'{psi}.A[{k}]', f'{psi}.qd', f'{psi}.qD[{kl}]', f'{psi}.qD[{kr}]')
+    return env
+
+
+def check_loop_body(chk, rid, repo, fi, stmts, i, label, psi='psi'):
+    """Evaluate the statements of one sweep position in the leg domain (local evolution / optimisation steps are the
+    identity on leg structure) and check: quantum numbers of every factorisation call, orientation of every stored
+    label, and that the updated pair of site tensors still denotes the old pair (gauge invariance)."""
+    env0 = body_env(psi, i)
+    body = [s for s in stmts if not isinstance(s, (ast.Assert, ast.For))]
+    w = where(repo, fi, stmts[0])
+    try:
+        it = LegInterp(fi, env0, repo=repo, body=body)
+        it.run()
+    except LegError as ex:
+        chk.ob(rid, w, f'{fi.name} [{label}]: statements of one sweep position are well-formed in the leg domain', False,
+               str(ex), key=f'{rid}|{fi.qual}|{label}|wellformed')
+        return 1
+    n = 0
+    for rec in it.shared['factor_calls']:
+        check_factor_charges(chk, rid, repo, rec, f'{rid}|{label}')
+        n += 2
+    # which site tensors changed?
+    changed = [k for k in env0 if it.env.get(k) is not env0[k]]
+    sites = sorted(changed)
+    from ..affine import Affine
+    keys = {off: f'@{psi}.A[{Affine.sym(i) + Affine.const(off)}]' for off in (-1, 0, 1, 2)}
+    pair = None
+    for off in (-1, 0, 1):
+        if keys[off] in changed and keys[off + 1] in changed:
+            pair = (off, off + 1)
+    if pair is None:
+        # only identity steps on single tensors at this position
+        return n
+    a, b = pair
+    A_old, B_old = env0[keys[a]], env0[keys[b]]
+    A_new, B_new = it.env[keys[a]], it.env[keys[b]]
+    ok, detail = False, ''
+    if isinstance(A_new, TVal) and isinstance(B_new, TVal) and A_new.rank == 3 and B_new.rank == 3:
+        try:
+            new = lg.tensordot(A_new, B_new, [2], [1], 'new bond')
+            ref = lg.tensordot(A_old, B_old, [2], [1], 'old bond')
+            red, applied, problems = lg.apply_rules(new)
+            c1, c2 = lg.canon(red), lg.canon(ref)
+            leftover = [o.name for o in red.net.occs if o.kind != 'param']
+            ok = c1['open'] == c2['open'] and c1['pairs'] == c2['pairs'] and not problems and not leftover and \
+                not red.net.weights
+            detail = '; '.join(problems) or f'open {c1["open"]} pairs {c1["pairs"]} vs expected open {c2["open"]} pairs {c2["pairs"]}'
+        except LegError as ex:
+            detail = str(ex)
+    else:
+        detail = f'updated values: {type(A_new).__name__}, {type(B_new).__name__}'
+    chk.ob(rid, w, f'{fi.name} [{label}]: the updated tensors of sites ({i}{a:+d}, {i}{b:+d}) contracted over the new bond denote '
+           f'the old pair (local steps taken as the identity on legs)', ok, detail, key=f'{rid}|{fi.qual}|{label}|gauge')
+    n += 1
+    # label stored for the bond between them
+    bond = str(Affine.sym(i) + Affine.const(b))
+    lab = it.env.get(f'@{psi}.qD[{bond}]')
+    if lab is None:
+        chk.ob(rid, w, f'{fi.name} [{label}]: the label of the re-factorised bond {bond} is stored', False,
+               f'no store to {psi}.qD[{bond}]', key=f'{rid}|{fi.qual}|{label}|label-stored')
+        return n + 1
+    # orientation: the left tensor of the pair has the new bond in its right slot, the right tensor in its left slot
+    for T, slot, nm in ((A_new, 2, 'left'), (B_new, 1, 'right')):
+        if isinstance(T, TVal) and T.rank == 3 and len(T.axes[slot]) == 1 and T.axes[slot][0].tag == 'bond':
+            leg = T.axes[slot][0]
+            sgn = 1 if slot == 1 else -1
+            want = [(sgn * leg.charge[0], leg.charge[1])]
+            got = lab.items if isinstance(lab, QV) else None
+            chk.ob(rid, w, f'{fi.name} [{label}]: the label stored for bond {bond} has the orientation of the new leg in the '
+                   f'{nm} tensor of the pair', got == want, f'label {fmt(got) if got else lab}, required {fmt(want)}',
+                   key=f'{rid}|{fi.qual}|{label}|label|{nm}')
+            n += 1
+    return n
+
+
+def sweep_positions(fi, psi='psi'):
+    """(label, loop variable, statements) for every sweep position of a TDVP / DMRG routine"""
+    out = []
+    outer = [s for s in fi.node.body if isinstance(s, ast.For) and ('numsteps' in norm(s.iter) or 'numsweeps' in norm(s.iter))]
+    if len(outer) != 1:
+        raise AnalysisError(f'{fi.qual}: outer loop over steps / sweeps not found')
+    between = []
+    k = 0
+    for s in outer[0].body:
+        if isinstance(s, ast.For):
+            if between:
+                out.append((f'block {k}', 'i', between))
+                k += 1
+                between = []
+            out.append((f'loop {norm(s.iter)}', norm(s.target), s.body))
+        else:
+            if any(isinstance(x, ast.Attribute) and x.attr == 'A' and norm(x.value) == psi for x in ast.walk(s)) or between:
+                between.append(s)
+    if between:
+        out.append((f'block {k}', 'i', between))
+    return out
